@@ -143,6 +143,8 @@ fn is_normal_finite(x: f64) -> bool {
 
 #[derive(Default)]
 struct GammaAccs {
+    /// regime family prefix ("" for the f32 / random-f64 workload of the quantifier)
+    fam: &'static str,
     n: [u64; 6],
     finite: [Acc; 6],
     rel: [Acc; 6],
@@ -152,8 +154,16 @@ struct GammaAccs {
 
 impl GammaAccs {
     /// one observation of gamma(z); returns false if z is outside the quantifier (pole / range)
+    fn family(fam: &'static str) -> Self {
+        GammaAccs { fam, ..Default::default() }
+    }
     #[inline]
     fn point(&mut self, z: f64) -> bool {
+        self.judge(z, None)
+    }
+    /// `pre` = a value of gamma(z) observed earlier (inside a call sequence); None = call now
+    #[inline]
+    fn judge(&mut self, z: f64, pre: Option<f64>) -> bool {
         if !(z > -170.0 && z < 171.6) || z == 0.0 {
             self.skipped_range += 1;
             return false;
@@ -169,7 +179,10 @@ impl GammaAccs {
         }
         let r = g_regime(z);
         self.n[r] += 1;
-        let got = gamma(z);
+        let got = match pre {
+            Some(v) => v,
+            None => gamma(z),
+        };
         let fin = got.is_finite();
         self.finite[r].hit(fin, 0.0, || json!({"z": z, "observed": jnum(got), "expected": jnum(want), "why": "true value is a finite normal f64"}));
         if fin {
@@ -181,11 +194,11 @@ impl GammaAccs {
     }
     fn flush(&mut self, rep: &mut Report) {
         for r in 0..6 {
-            let reg = format!("gamma:{}", G_REG[r]);
+            let reg = format!("gamma:{}{}", self.fam, G_REG[r]);
             count_cases(rep, &reg, self.n[r]);
             self.n[r] = 0;
             flush(rep, "C09.gamma.finite", &reg, &mut self.finite[r], None);
-            let key = format!("worst_ratio.gamma.rel:{}", G_REG[r]);
+            let key = format!("worst_ratio.gamma.rel:{}{}", self.fam, G_REG[r]);
             flush(rep, "C09.gamma.rel", &reg, &mut self.rel[r], Some(&key));
         }
         rep.note_add("skipped.gamma.pole_neighbourhood", self.skipped_pole as f64);
@@ -213,6 +226,7 @@ const E_REG: [&str; 3] = ["x=0", "0<|x|<=6", "6<|x|<=40"];
 
 #[derive(Default)]
 struct ErfAccs {
+    fam: &'static str,
     n: [u64; 3],
     odd: [Acc; 3],
     bound: [Acc; 3],
@@ -220,8 +234,16 @@ struct ErfAccs {
 }
 impl ErfAccs {
     /// x >= 0 (or +0): checks x and -x together
+    fn family(fam: &'static str) -> Self {
+        ErfAccs { fam, ..Default::default() }
+    }
     #[inline]
     fn point(&mut self, x: f64) {
+        self.judge(x, erf(x), erf(-x))
+    }
+    /// x >= 0, `ep` = observed erf(x), `en` = observed erf(-x)
+    #[inline]
+    fn judge(&mut self, x: f64, ep: f64, en: f64) {
         let r = if x == 0.0 {
             0
         } else if x <= 6.0 {
@@ -230,8 +252,6 @@ impl ErfAccs {
             2
         };
         self.n[r] += 2;
-        let ep = erf(x);
-        let en = erf(-x);
         self.odd[r].hit(en == -ep, 0.0, || json!({"x": x, "erf(x)": jnum(ep), "erf(-x)": jnum(en), "expected": "erf(-x) == -erf(x) exactly"}));
         let m = ep.abs().max(en.abs());
         self.bound[r].hit(m <= 1.0, 0.0, || json!({"x": x, "erf(x)": jnum(ep), "erf(-x)": jnum(en), "expected": "|erf| <= 1"}));
@@ -243,12 +263,13 @@ impl ErfAccs {
     }
     fn flush(&mut self, rep: &mut Report) {
         for r in 0..3 {
-            let reg = format!("erf:{}", E_REG[r]);
+            // x = 0 is one argument, not a class: it keeps its single label in every family
+            let reg = format!("erf:{}{}", if r == 0 { "" } else { self.fam }, E_REG[r]);
             count_cases(rep, &reg, self.n[r]);
             self.n[r] = 0;
             flush(rep, "C09.erf.odd", &reg, &mut self.odd[r], None);
             flush(rep, "C09.erf.bounded", &reg, &mut self.bound[r], None);
-            let key = format!("worst_ratio.erf.abs:{}", E_REG[r]);
+            let key = format!("worst_ratio.erf.abs:{}{}", self.fam, E_REG[r]);
             flush(rep, "C09.erf.abs", &reg, &mut self.acc[r], Some(&key));
         }
     }
@@ -345,10 +366,22 @@ fn dg_regime(x: f64) -> &'static str {
 }
 
 fn digamma_point(rep: &mut Report, x: f64) {
-    let reg = dg_regime(x);
+    digamma_judge(rep, "", x, None)
+}
+
+/// `fam` = regime family ("" = the quantifier's random workload); `pre` = a value of digamma(x)
+/// observed earlier inside a call sequence (then the recurrence, which needs another call, is not formed).
+fn digamma_judge(rep: &mut Report, fam: &str, x: f64, pre: Option<f64>) {
+    let reg_owned;
+    let reg = if fam.is_empty() {
+        dg_regime(x)
+    } else {
+        reg_owned = dg_regime(x).replacen("digamma:", &format!("digamma:{}", fam), 1);
+        &reg_owned
+    };
     rep.case(reg);
     rep.distinct(Hasher::new().s("dg").f(x).finish(), true);
-    let got = match guard(|| digamma(x)) {
+    let got = match pre.map(Ok).unwrap_or_else(|| guard(|| digamma(x))) {
         Ok(v) => v,
         Err(msg) => {
             rep.check("C09.digamma.no_panic", reg, false, || json!({"x": x, "panic": msg}));
@@ -360,6 +393,9 @@ fn digamma_point(rep: &mut Report, x: f64) {
     let err = (got - want).abs() / scale;
     rep.note_max("worst_ratio.digamma.abs", if err.is_nan() { f64::INFINITY } else { err / DIGAMMA_TOL });
     rep.check("C09.digamma.abs", reg, err <= DIGAMMA_TOL, || json!({"x": x, "observed": jnum(got), "expected": want, "err/max(1,|psi|)": jnum(err), "tolerance": DIGAMMA_TOL}));
+    if pre.is_some() {
+        return;
+    }
     // ψ(x+1) = ψ(x) + 1/x
     let up = digamma(x + 1.0);
     let resid = (up - got - 1.0 / x).abs() / (up.abs().max(got.abs()).max(1.0 / x).max(1.0));
@@ -373,10 +409,20 @@ fn digamma_point(rep: &mut Report, x: f64) {
 const BETA_TOL: f64 = 1e-12;
 
 fn beta_point(rep: &mut Report, a: f64, b: f64) {
-    let reg = if a + b >= POS_SPLIT { "beta:a+b>=142.57" } else { "beta:a+b<142.57" };
+    beta_judge(rep, "", a, b, None)
+}
+
+/// `pre` = a value of beta(a, b) observed earlier inside a call sequence (symmetry is then judged on
+/// that value against a fresh beta(b, a)).
+fn beta_judge(rep: &mut Report, fam: &str, a: f64, b: f64, pre: Option<f64>) {
+    let reg_owned = format!("beta:{}{}", fam, if a + b >= POS_SPLIT { "a+b>=142.57" } else { "a+b<142.57" });
+    let reg: &str = &reg_owned;
     rep.case(reg);
     rep.distinct(Hasher::new().s("beta").f(a).f(b).finish(), true);
-    let r = guard(|| (beta(a, b), beta(b, a)));
+    let r = guard(|| match pre {
+        Some(v) => (v, beta(b, a)),
+        None => (beta(a, b), beta(b, a)),
+    });
     let (got, swapped) = match r {
         Ok(v) => v,
         Err(msg) => {
@@ -407,6 +453,10 @@ fn beta_point(rep: &mut Report, a: f64, b: f64) {
 /// Γ(x+1) = xΓ(x), both sides from the library; tolerance 1e-13·(s(x)+s(x+1)) (each side is allowed
 /// its own error by the accuracy clause).
 fn recurrence_point(rep: &mut Report, x: f64) {
+    recurrence_point_f(rep, "", x)
+}
+
+fn recurrence_point_f(rep: &mut Report, fam: &str, x: f64) {
     // make x + 1 exactly representable: otherwise the identity is tested at a perturbed argument
     // (ulp(128)/2 · ψ(128) = 7e-14 — seen as a "residual" of the monitor's own making)
     let x = (x + 1.0) - 1.0;
@@ -431,6 +481,13 @@ fn recurrence_point(rep: &mut Report, x: f64) {
         "ident:0<x<141.57"
     } else {
         "ident:-141.57<x<0"
+    };
+    let reg_owned;
+    let reg = if fam.is_empty() {
+        reg
+    } else {
+        reg_owned = reg.replacen("ident:", &format!("ident:{}", fam), 1);
+        &reg_owned
     };
     rep.case(reg);
     rep.distinct(Hasher::new().s("rec").f(x).finish(), true);
@@ -467,18 +524,447 @@ fn factorials(rep: &mut Report) {
 }
 
 // ---------------------------------------------------------------------------------------------
+// f64 arguments next to the lattice of integers / half-integers (and, for gamma, next to the poles)
+
+/// 10^-k (k = 1..15) and 2^-j (j = 2..50)
+fn lattice_offsets() -> Vec<f64> {
+    let mut v: Vec<f64> = (1..=15).map(|k| 10f64.powi(-k)).collect();
+    v.extend((2..=50).map(|j| 2f64.powi(-j)));
+    v
+}
+
+/// c ± δ for every fixed offset plus `extra` random ones (log-uniform 1e-16..0.25), both sides
+fn lattice_points(rng: &mut Rng, c: f64, extra: usize) -> Vec<f64> {
+    let mut v = Vec::new();
+    for d in lattice_offsets() {
+        v.push(c + d);
+        v.push(c - d);
+    }
+    for _ in 0..extra {
+        let d = rng.log_range(1e-16, 0.25);
+        v.push(if rng.bool() { c + d } else { c - d });
+    }
+    v
+}
+
+/// Legendre duplication Γ(2x) = 2^(2x−1) Γ(x) Γ(x+½) / √π on the library's own values, x > 0. Each of
+/// the three values may be off by 1e-13 (accuracy clause), the power of two by its rounded exponent.
+fn duplication_point(rep: &mut Report, fam: &str, x: f64) {
+    if !(x > POLE_NBHD && 2.0 * x < 171.6) || Dd::sum2(x, 0.5).lo != 0.0 {
+        return;
+    }
+    let (t0, t1, t2) = (sp::tgamma(x), sp::tgamma(x + 0.5), sp::tgamma(2.0 * x));
+    if !is_normal_finite(t0) || !is_normal_finite(t1) || !is_normal_finite(t2) {
+        return;
+    }
+    let reg = format!("ident:{}duplication", fam);
+    rep.case(&reg);
+    rep.distinct(Hasher::new().s("dup").f(x).finish(), true);
+    let (g0, g1, g2) = (gamma(x), gamma(x + 0.5), gamma(2.0 * x));
+    // 2^(2x-1) in two halves (no overflow), exponent 2x-1 rounded once: relative error <= ln2·u·|2x-1| each
+    let h = (x - 0.5).exp2();
+    let resid = (g2 / g0 / h / g1 / h * std::f64::consts::PI.sqrt() - 1.0).abs();
+    let tol = 3.0 * GAMMA_TOL + 16.0 * f64::EPSILON * (1.0 + 2.0 * x);
+    let ok = resid <= tol;
+    if ok {
+        rep.note_max("worst_ratio.ident.duplication", resid / tol);
+    }
+    rep.check("C09.ident.duplication", &reg, ok, || json!({"x": x, "gamma(x)": jnum(g0), "gamma(x+1/2)": jnum(g1), "gamma(2x)": jnum(g2), "rel_residual": jnum(resid), "tolerance": tol}));
+}
+
+const LAT: &str = "near-lattice:";
+
+/// gamma: centre number `i` of the centres m/2 in [-169.5, 171.5] (non-positive integers are the
+/// poles: only offsets >= 1e-3 count there)
+const GAMMA_CENTRES: usize = 2 * 171 + 1 + 2 * 169 + 1;
+fn lattice_gamma_case(rep: &mut Report, rng: &mut Rng, i: usize, extra: usize) {
+    let c = (i as i64 - 339) as f64 * 0.5;
+    let mut acc = GammaAccs::family(LAT);
+    let r = guard(|| {
+        for z in lattice_points(rng, c, extra) {
+            if acc.point(z) {
+                rep.distinct(Hasher::new().s("g").f(z).finish(), true);
+                recurrence_point_f(rep, LAT, z);
+                if z > 0.0 {
+                    duplication_point(rep, LAT, z);
+                    duplication_point(rep, LAT, 0.5 * z);
+                }
+            }
+        }
+    });
+    acc.flush(rep);
+    if let Err(msg) = r {
+        rep.check("C09.gamma.no_panic", "gamma:near-lattice", false, || json!({"centre": c, "panic": msg}));
+    }
+}
+
+/// beta: both arguments on or next to the lattice, independently
+fn lattice_beta_case(rep: &mut Report, rng: &mut Rng, offs: &[f64]) {
+    for k in 0..400 {
+        let pick = |rng: &mut Rng, may_be_exact: bool| -> f64 {
+            let c = rng.int(0, 159) as f64 * 0.5;
+            let d = if may_be_exact && rng.chance(0.25) {
+                0.0
+            } else if rng.chance(0.2) {
+                rng.log_range(1e-16, 0.25)
+            } else {
+                *rng.choose(offs)
+            };
+            if c == 0.0 || rng.bool() {
+                c + d
+            } else {
+                c - d
+            }
+        };
+        let a = pick(rng, k % 2 == 0);
+        let b = pick(rng, k % 2 == 1);
+        if a > 1e-3 && b > 1e-3 && a < 80.0 && b < 80.0 {
+            beta_judge(rep, LAT, a, b, None);
+        }
+    }
+}
+
+fn lattice_digamma_case(rep: &mut Report, rng: &mut Rng, c: f64, extra: usize) {
+    for x in lattice_points(rng, c, extra) {
+        if x > 1e-3 && x < 1e6 {
+            digamma_judge(rep, LAT, x, None);
+        }
+    }
+}
+
+fn lattice_erf_case(rep: &mut Report, rng: &mut Rng, c: f64, extra: usize) {
+    let mut acc = ErfAccs::family(LAT);
+    let r = guard(|| {
+        for x in lattice_points(rng, c, extra) {
+            // x = 0 itself is a single argument with its own label in the base workload
+            if x > 0.0 && x <= 40.0 {
+                acc.point(x);
+                rep.distinct(Hasher::new().s("e").f(x).finish(), true);
+            }
+        }
+    });
+    acc.flush(rep);
+    if let Err(msg) = r {
+        rep.check("C09.erf.no_panic", "erf:near-lattice", false, || json!({"centre": c, "panic": msg}));
+    }
+}
+
+/// All added families run as one fan-out (stream 8): case index ranges, in this order: gamma lattice
+/// centres, beta lattice batches, digamma centres, erf centres, history cases, close sequences.
+fn run_added_families(cfg: &Cfg, rep: &mut Report) {
+    let extra = cfg.pick(16, 400, 2);
+    let offs = lattice_offsets();
+    // digamma: centres m/2 up to 200 and a few large ones; erf: centres m/4 in [0, 6], integers to 40
+    let mut dcentres: Vec<f64> = (1..=400).map(|m| m as f64 * 0.5).collect();
+    dcentres.extend([500.0, 1000.0, 4096.0, 1e4, 65536.5, 1e5, 999_999.0]);
+    let mut ecentres: Vec<f64> = (0..=24).map(|m| m as f64 * 0.25).collect();
+    ecentres.extend((7..=40).map(|m| m as f64));
+    let n_beta = cfg.pick(100, 2000, 1);
+    let n_hist = cfg.pick(4 * 1500, 4 * 30_000, 4);
+    let n_seq = cfg.pick(4 * 1500, 4 * 30_000, 4);
+    let bounds = [GAMMA_CENTRES, n_beta, dcentres.len(), ecentres.len(), n_hist, n_seq];
+    let total: usize = bounds.iter().sum();
+    par_cases(cfg, rep, 8, total, |i, rng: &mut Rng, rep| {
+        let mut k = i;
+        let mut fam = 0;
+        while k >= bounds[fam] {
+            k -= bounds[fam];
+            fam += 1;
+        }
+        match fam {
+            0 => lattice_gamma_case(rep, rng, k, extra),
+            1 => lattice_beta_case(rep, rng, &offs),
+            2 => lattice_digamma_case(rep, rng, dcentres[k], extra),
+            3 => lattice_erf_case(rep, rng, ecentres[k], extra),
+            4 => history_case(rep, rng, k % 4, (k / 4) % 16 == 0),
+            _ => sequence_case(rep, rng, k % 4),
+        }
+    });
+    for r in ["gamma:near-lattice:1e-3<=z<0.5", "gamma:near-lattice:0.5<=z<142.57", "gamma:near-lattice:z>=142.57", "gamma:near-lattice:-141.57<z<0", "gamma:near-lattice:z<=-141.57",
+        "ident:near-lattice:0<x<141.57", "ident:near-lattice:-141.57<x<0", "ident:near-lattice:duplication", "beta:near-lattice:a+b<142.57", "beta:near-lattice:a+b>=142.57",
+        "digamma:near-lattice:x<1", "digamma:near-lattice:1<=x<6", "digamma:near-lattice:6<=x<100", "digamma:near-lattice:x>=100", "erf:near-lattice:0<|x|<=6", "erf:near-lattice:6<|x|<=40"] {
+        rep.require(r, 1);
+    }
+    for f in ["gamma", "beta", "digamma", "erf"] {
+        for kind in ["fresh-thread", "after-self", "after-near", "sweep"] {
+            rep.require(&format!("{}:history:{}", f, kind), 1);
+        }
+        rep.require(&format!("cover:{}:close-sequence", f), 1);
+    }
+}
+
+// ---------------------------------------------------------------------------------------------
+// history independence and sequences of close arguments
+
+#[derive(Clone, Copy, Debug, PartialEq)]
+enum Call {
+    Gamma(f64),
+    Beta(f64, f64),
+    Digamma(f64),
+    Erf(f64),
+}
+
+/// bits of the returned value, or "panicked"
+type Obs = Result<u64, ()>;
+
+fn next_up(x: f64) -> f64 {
+    if x == 0.0 {
+        return 5e-324;
+    }
+    let b = x.to_bits();
+    f64::from_bits(if x > 0.0 { b + 1 } else { b - 1 })
+}
+
+/// a different argument within 2^-52 (relative) .. 1e-6 of x, same sign
+fn nudge(rng: &mut Rng, x: f64) -> f64 {
+    let y = match rng.usize(0, 3) {
+        0 => {
+            if rng.bool() {
+                next_up(x)
+            } else {
+                -next_up(-x)
+            }
+        }
+        1 => x + rng.log_range(1e-15, 1e-6) * if rng.bool() { 1.0 } else { -1.0 },
+        _ => x * (1.0 + rng.log_range(1e-15, 1e-6) * if rng.bool() { 1.0 } else { -1.0 }),
+    };
+    if y == x || !y.is_finite() || (y > 0.0) != (x > 0.0) {
+        next_up(x)
+    } else {
+        y
+    }
+}
+
+impl Call {
+    fn name(&self) -> &'static str {
+        match self {
+            Call::Gamma(_) => "gamma",
+            Call::Beta(..) => "beta",
+            Call::Digamma(_) => "digamma",
+            Call::Erf(_) => "erf",
+        }
+    }
+    fn eval_f(&self) -> Result<f64, ()> {
+        guard(|| match *self {
+            Call::Gamma(z) => gamma(z),
+            Call::Beta(a, b) => beta(a, b),
+            Call::Digamma(x) => digamma(x),
+            Call::Erf(x) => erf(x),
+        })
+        .map_err(|_| ())
+    }
+    fn eval(&self) -> Obs {
+        self.eval_f().map(|v| if v.is_nan() { 0x7ff8_0000_0000_0000 } else { v.to_bits() })
+    }
+    fn json(&self) -> Value {
+        match *self {
+            Call::Gamma(z) => json!({"z": z}),
+            Call::Beta(a, b) => json!({"a": a, "b": b}),
+            Call::Digamma(x) | Call::Erf(x) => json!({"x": x}),
+        }
+    }
+    fn near(&self, rng: &mut Rng) -> Call {
+        match *self {
+            Call::Gamma(z) => Call::Gamma(nudge(rng, z)),
+            Call::Digamma(x) => Call::Digamma(nudge(rng, x)),
+            Call::Erf(x) => Call::Erf(nudge(rng, x)),
+            Call::Beta(a, b) => match rng.usize(0, 2) {
+                0 => Call::Beta(nudge(rng, a), b),
+                1 => Call::Beta(a, nudge(rng, b)),
+                _ => Call::Beta(nudge(rng, a), nudge(rng, b)),
+            },
+        }
+    }
+    /// the next element of an arithmetic sequence with step h in the first (beta: `both` → both) argument
+    fn step(&self, h: f64, both: bool) -> Call {
+        match *self {
+            Call::Gamma(z) => Call::Gamma(z + h),
+            Call::Digamma(x) => Call::Digamma(x + h),
+            Call::Erf(x) => Call::Erf(x + h),
+            Call::Beta(a, b) => Call::Beta(a + h, if both { b + h } else { b }),
+        }
+    }
+}
+
+/// an argument of the property's quantifier: random, or on / next to the lattice
+fn gen_call(rng: &mut Rng, which: usize) -> Call {
+    let lat = |rng: &mut Rng, lo: i64, hi: i64| -> f64 {
+        let c = rng.int(lo, hi) as f64 * 0.5;
+        match rng.usize(0, 2) {
+            0 => c,
+            1 => c + rng.log_range(1e-15, 0.25) * if rng.bool() { 1.0 } else { -1.0 },
+            _ => c + 2f64.powi(-(rng.int(2, 50) as i32)) * if rng.bool() { 1.0 } else { -1.0 },
+        }
+    };
+    match which % 4 {
+        0 => Call::Gamma(match rng.usize(0, 3) {
+            0 => rng.range(-170.0, 171.6),
+            1 => rng.log_range(1e-3, 171.6),
+            _ => lat(rng, -339, 343),
+        }),
+        1 => {
+            let arg = |rng: &mut Rng| -> f64 {
+                let v = if rng.bool() { rng.log_range(1e-3, 80.0) } else { lat(rng, 1, 159) };
+                v.clamp(1.000001e-3, 79.999)
+            };
+            let a = arg(rng);
+            let b = if rng.chance(0.1) { a } else { arg(rng) };
+            Call::Beta(a, b)
+        }
+        2 => Call::Digamma(match rng.usize(0, 2) {
+            0 => rng.log_range(1e-3, 1e6),
+            1 => rng.range(1e-3, 12.0),
+            _ => lat(rng, 1, 400).max(1.000001e-3),
+        }),
+        _ => Call::Erf(match rng.usize(0, 3) {
+            0 => rng.range(-6.0, 6.0),
+            1 => rng.range(-40.0, 40.0),
+            2 => rng.log_range(1e-300, 6.0),
+            _ => lat(rng, -24, 24) * 0.5,
+        }),
+    }
+}
+
+fn obs_json(o: &Obs) -> Value {
+    match o {
+        Err(()) => json!("panic"),
+        Ok(b) => json!(format!("{:#018x} ({:e})", b, f64::from_bits(*b))),
+    }
+}
+
+/// The value of a special function must not depend on the calls the thread made before. The call
+/// under test is observed (a) right after an unrelated call of the same function — the baseline —,
+/// (b) as the first library call of a new thread, (c) after itself, (d) after each of three near
+/// neighbours (2^-52..1e-6 away), (e) at the end of the sweep near1, near2, near3, target; the
+/// neighbours are observed after the target and inside the sweep too. All observations of one argument
+/// must agree bit for bit.
+fn history_case(rep: &mut Report, rng: &mut Rng, which: usize, fresh: bool) {
+    let target = gen_call(rng, which);
+    let far = gen_call(rng, which);
+    let nears: Vec<Call> = (0..3).map(|_| target.near(rng)).collect();
+    let name = target.name();
+    let assertion = format!("C09.{}.history_independent", name);
+    // every observation starts from the same state: the unrelated call first, so that the recorded
+    // predecessor chain (unrelated call, predecessor, call) is the complete relevant history
+    let after = |pred: &Call, c: &Call| -> Obs {
+        let _ = far.eval();
+        let _ = pred.eval();
+        c.eval()
+    };
+    let baseline = |c: &Call| -> Obs {
+        let _ = far.eval();
+        c.eval()
+    };
+    let base_t = baseline(&target);
+    let base_n: Vec<Obs> = nears.iter().map(baseline).collect();
+    let cmp = |rep: &mut Report, kind: &str, c: &Call, base: &Obs, got: &Obs, pred: Value| {
+        let regime = format!("{}:history:{}", name, kind);
+        rep.case(&regime);
+        rep.check(&assertion, &regime, base == got, || json!({"call": c.json(), "preceded_by": pred, "observed": obs_json(got), "same_call_after_an_unrelated_call": obs_json(base), "unrelated_call": far.json()}));
+    };
+    if fresh {
+        let got = std::thread::scope(|s| s.spawn(|| target.eval()).join().expect("fresh thread"));
+        cmp(rep, "fresh-thread", &target, &base_t, &got, json!("nothing (first call of a new thread)"));
+    }
+    let got = after(&target, &target);
+    cmp(rep, "after-self", &target, &base_t, &got, target.json());
+    for (c, b) in nears.iter().zip(&base_n) {
+        let got = after(c, &target);
+        cmp(rep, "after-near", &target, &base_t, &got, c.json());
+        let got = after(&target, c);
+        cmp(rep, "after-near", c, b, &got, target.json());
+    }
+    let _ = far.eval();
+    let mut prev = far.json();
+    for (c, b) in nears.iter().zip(&base_n).chain(std::iter::once((&target, &base_t))) {
+        let got = c.eval();
+        cmp(rep, "sweep", c, b, &got, prev);
+        prev = c.json();
+    }
+    rep.distinct(Hasher::new().s("hist").s(name).s(&target.json().to_string()).finish(), true);
+}
+
+const SEQ: &str = "close-sequence:";
+
+/// A run of 8..32 arguments in arithmetic progression with a step of 1e-13..1e-7 is evaluated back to
+/// back (nothing else in between); afterwards every value is judged against the reference with the
+/// tolerance of the accuracy clause.
+fn sequence_case(rep: &mut Report, rng: &mut Rng, which: usize) {
+    let start = gen_call(rng, which);
+    let h = rng.log_range(1e-13, 1e-7) * if rng.bool() { 1.0 } else { -1.0 };
+    let both = rng.bool();
+    let len = rng.usize(8, 32);
+    let mut calls = vec![start];
+    for _ in 1..len {
+        let nx = calls.last().unwrap().step(h, both);
+        calls.push(nx);
+    }
+    let inside = |c: &Call| match *c {
+        Call::Gamma(z) => z > -170.0 && z < 171.6,
+        Call::Beta(a, b) => a > 1e-3 && b > 1e-3 && a < 80.0 && b < 80.0,
+        Call::Digamma(x) => x > 1e-3 && x < 1e6,
+        Call::Erf(x) => x.abs() <= 40.0 && x != 0.0,
+    };
+    calls.retain(inside);
+    if calls.len() < 2 {
+        return;
+    }
+    let vals: Vec<Result<f64, ()>> = calls.iter().map(|c| c.eval_f()).collect();
+    // erf: the mirrored sequence afterwards, for the odd-symmetry part of the judge
+    let mirrored: Vec<Result<f64, ()>> = calls.iter().map(|c| if let Call::Erf(x) = c { Call::Erf(-x).eval_f() } else { Err(()) }).collect();
+    let mut gacc = GammaAccs::family(SEQ);
+    let mut eacc = ErfAccs::family(SEQ);
+    for ((c, v), m) in calls.iter().zip(&vals).zip(&mirrored) {
+        let v = match v {
+            Ok(v) => *v,
+            Err(()) => {
+                let reg = format!("{}:close-sequence", c.name());
+                rep.case(&reg);
+                rep.check(&format!("C09.{}.no_panic", c.name()), &reg, false, || json!({"call": c.json(), "panic": true}));
+                continue;
+            }
+        };
+        match *c {
+            Call::Gamma(z) => {
+                gacc.judge(z, Some(v));
+            }
+            Call::Beta(a, b) => beta_judge(rep, SEQ, a, b, Some(v)),
+            Call::Digamma(x) => digamma_judge(rep, SEQ, x, Some(v)),
+            Call::Erf(x) => {
+                if let Ok(m) = m {
+                    if x >= 0.0 {
+                        eacc.judge(x, v, *m)
+                    } else {
+                        eacc.judge(-x, *m, v)
+                    }
+                }
+            }
+        }
+    }
+    gacc.flush(rep);
+    eacc.flush(rep);
+    rep.seen(&format!("cover:{}:close-sequence", start.name()), 1);
+}
+
+// ---------------------------------------------------------------------------------------------
 
 pub fn run(cfg: &Cfg, rep: &mut Report) {
-    rep.rule = "gamma: f32-representable z in (-170,171.6) (quick: stratified sample — uniform in value and uniform in bit pattern; thorough: every f32, every 16th below 1e-3) + random f64; erf: f32-representable x in [-6,6] (thorough: all) + random f64 in ±40, x and -x observed together; beta: a,b log-uniform in (1e-3,80); digamma: all integers <= 1e4 and log-uniform (1e-3,1e6). non-trivial = argument is not 0/1/2; distinct = distinct argument bits (quick) or distinct 1024-wide f32 bit buckets (thorough sweeps; exact point counts are in notes.points.*)".into();
+    rep.rule = "gamma: f32-representable z in (-170,171.6) (quick: stratified sample — uniform in value and uniform in bit pattern; thorough: every f32, every 16th below 1e-3) + random f64; erf: f32-representable x in [-6,6] (thorough: all) + random f64 in ±40, x and -x observed together; beta: a,b log-uniform in (1e-3,80); digamma: all integers <= 1e4 and log-uniform (1e-3,1e6). near-lattice: arguments c ± 10^-k, c ± 2^-j, c ± random δ around integers and half-integers for all four functions; history: one argument re-evaluated after itself, after near neighbours, in a sweep and on a fresh thread; close sequences of 8..32 arguments. non-trivial = argument is not 0/1/2; distinct = distinct argument bits (quick) or distinct 1024-wide f32 bit buckets (thorough sweeps; exact point counts are in notes.points.*)".into();
     rep.assume("gamma arguments within 1e-3 of a pole (non-positive integer) are outside the quantifier and skipped; arguments whose true value (glibc tgamma) is not a finite normal f64 are skipped");
     rep.assume("gamma tolerance 1e-13*s(z), s=1 for z>0, s=1+40|z|eps/(1e-13*dist(z,poles)) for z<0 (conditioning of the reflection formula w.r.t. one ulp of the argument)");
     rep.assume("reference = glibc tgamma/erf (<= 1e-15 rel. vs mpmath at development time); digamma reference = own recurrence+asymptotic series in double-double, self-tested against 8 mpmath values");
+    rep.assume("near-lattice family: f64 arguments c ± 10^-k (k = 1..15), c ± 2^-j (j = 2..50) and c ± random δ in (1e-16, 0.25) around every integer and half-integer c of the range (gamma: -169.5..171.5, poles keep their 1e-3 neighbourhood; beta: both arguments; digamma: c <= 200 and seven large centres; erf: quarter-integers to 6, integers to 40), judged with the tolerances of the accuracy clause; Γ(x+1) = xΓ(x) and the duplication formula Γ(2x) = 2^(2x-1)Γ(x)Γ(x+½)/√π (tolerance 3e-13 + 16ε(1+2x): three values at 1e-13 each plus the rounded exponent) are formed there on the library's own values");
+    rep.assume("history independence: gamma, beta, digamma, erf are functions of their arguments, so one argument has one result (bit pattern) whatever the thread called before; baseline = the same call made directly after an unrelated call of the same function, and (one case in 16) the first call of a new thread; close sequences (arithmetic progressions with step 1e-13..1e-7 evaluated back to back) are judged value by value against the reference");
     rep.assume("beta reference = tgamma(a)tgamma(b)/tgamma(a+b), cross-checked with exp(lgamma a + lgamma b - lgamma(a+b)) to 1e-12");
     if let Err(e) = digamma_selftest() {
         rep.inconclusive(format!("oracle self-test failed: {}", e));
         return;
     }
     let thorough = cfg.thorough() && !cfg.lite;
+
+    // added families first (near-lattice f64 arguments, history independence, close sequences): their
+    // bookkeeping is merged while the report is still small
+    run_added_families(cfg, rep);
 
     // ---- gamma: f32 arguments ------------------------------------------------------------------
     let pos_hi = f32_pos_limit(171.6f32); // bits of the largest f32 < 171.6
